@@ -5,7 +5,9 @@
 
   Core Lean only (no Mathlib): this file is linked into the `driver` executable.
 -/
+import UberjobModel.Gen.Engine
 namespace Uberjob.Engine
+open Uberjob.Gen.Engine (classify stopCond readyCond Kind)
 
 /-- The part of a `networkx.MultiDiGraph` the engine looks at: for every node the list of its
     DISTINCT successors / predecessors (`graph.succ[x]`, `graph.pred[x]`).  Parallel edges between
@@ -99,7 +101,7 @@ inductive Label where
   | joined
 deriving DecidableEq, Repr
 
-def sources (g : Graph) : List Nat := g.nodes.filter (fun x => g.predCount x == 0)
+def sources (g : Graph) : List Nat := g.nodes.filter (fun x => classify (g.predCount x) == Kind.source)
 
 def init (g : Graph) : St :=
   { queue := (sources g).map Item.node
@@ -115,11 +117,11 @@ def setW (s : St) (w : Nat) (st : W) : St := { s with ws := s.ws.set w st }
 /-- `remaining_pred_count_mapping` after worker handled successor `y`:
     untouched if `y in single_parent_nodes`, else decremented under `remaining_pred_count_lock`. -/
 def releaseRem (g : Graph) (s : St) (y : Nat) : Nat → Nat :=
-  if g.predCount y == 1 then s.rem else fun z => if z = y then s.rem y - 1 else s.rem z
+  if classify (g.predCount y) == Kind.single then s.rem else fun z => if z = y then s.rem y - 1 else s.rem z
 
 /-- Is `y` put in the queue: single-parent nodes directly, others when the counter reaches 0. -/
 def releasePut (g : Graph) (s : St) (y : Nat) : Bool :=
-  g.predCount y == 1 || releaseRem g s y y == 0
+  classify (g.predCount y) == Kind.single || readyCond (releaseRem g s y y)
 
 /-- One atomic step.  `none` = the label is not enabled in this state. -/
 def step? (g : Graph) (cfg : Cfg) (s : St) : Label → Option St
@@ -156,7 +158,7 @@ def step? (g : Graph) (cfg : Cfg) (s : St) : Label → Option St
       some { setW s w (.finishing false) with
                errs := errs'
                first := match s.first with | some f => some f | none => some x
-               stop := s.stop || (match cfg.maxErr with | some k => decide (errs' > k) | none => false)
+               stop := s.stop || stopCond errs' cfg.maxErr
                failed := s.failed ++ [x], retired := s.retired ++ [x] }
     | _ => none
   | .release w y =>
